@@ -726,13 +726,29 @@ fn doubling_probe<M: Machine>(fw: &FWorld<M>, slot: u16, confs: &[u8], stats: &m
             }
         }
     }
+    // ... and once more with the state itself (2^k + 1 copies: a count that is not a multiple of a
+    // large power of two)
+    {
+        let (a, b) = (st.clone(), s.st.clone());
+        let (ta, tb) = (tw.clone(), t.st.clone());
+        match guard(|| (M::merge(a, b, op + 1), <M::Twin as Machine>::merge(ta, tb, op + 1))) {
+            Ok((x, y)) => {
+                st = x;
+                tw = y;
+            }
+            Err(p) => {
+                viol.push(Violation::new("C05", &format!("{}/merge-of-a-state-with-its-copy/panic", M::name()), slot, p));
+                return viol;
+            }
+        }
+    }
     stats.inc("c05_population_doubling_probes");
-    let want = n << k;
+    let want = n * ((1u64 << k) + 1);
     let o = M::observe(&st, ObsPlan { confs: &[], unguarded: false });
     match obs_get(&o, What::Count(0)) {
         Some(Val::U(g)) if *g == want => {}
         other => {
-            viol.push(Violation::new("C05", &format!("{}/count-mismatch-after-self-merges", M::name()), slot, format!("{n} observations merged with themselves {k} times: the state reports {:?}, expected {want}", other.map(|v| v.render()))));
+            viol.push(Violation::new("C05", &format!("{}/count-mismatch-after-self-merges", M::name()), slot, format!("2^{k} + 1 copies of {n} observations (self-merges): the state reports {:?}, expected {want}", other.map(|v| v.render()))));
             return viol;
         }
     }
@@ -742,7 +758,7 @@ fn doubling_probe<M: Machine>(fw: &FWorld<M>, slot: u16, confs: &[u8], stats: &m
             continue;
         }
         v.invariant = format!("{}-after-self-merges", v.invariant);
-        v.detail = format!("{n} observations merged with themselves {k} times (count {want}): {}", v.detail);
+        v.detail = format!("2^{k} + 1 copies of {n} observations (self-merges, count {want}): {}", v.detail);
         viol.push(v);
     }
     viol
